@@ -3,6 +3,10 @@
   This file: the size table and Binary.Skip. The other entry points are in Props/C03_<family>.lean.
 -/
 import Verif.Lemmas.SkipBinCor
+import Verif.Lemmas.SkipBRInst
+import Verif.Lemmas.SkipBRBytes
+import Verif.Lemmas.SkipTplBufiox
+import Verif.Lemmas.SkipTplReader
 namespace Verif.C03
 
 /-- The size table the skippers index (regenerated from the source on every run) has an entry for
@@ -33,5 +37,96 @@ example : ∃ e, skipBin [0x0b, 0x0a, 0,0,0,1, 0,0,0,0, 0x55] TT.MAP = .err e :=
     have : refLen 65 TT.MAP [0x0b, 0x0a, 0,0,0,1, 0,0,0,0, 0x55] = none := by decide
     rw [this] at h2; cases h2
   · exact h
+
+/-! ## the stream skippers on bytes-backed readers
+
+  In the models every slice index of the Go code is an explicit `idx`/`u32of` that yields
+  `panic "index"` on a short (or nil) slice, the peeked window `buf[rn:]` yields `panic "slice"`,
+  a reader that returns `(nil, nil)` hands the caller a nil slice, and a `for {}` loop that does not
+  terminate within its fuel yields `panic "nofuel"`.  The theorems say none of these is reachable. -/
+
+/-- BufferReader.Skip over `NewBytesReader(b)` — EVERY byte string, EVERY capacity, EVERY type byte
+    (including values ≥ 0x80): a result or an error; never a panic. -/
+theorem skipBR_bytes_safe (b : Bytes) (cap : Nat) (t : UInt8) :
+    (∀ s, skipBR t (Rd.newBytes b cap) ≠ .panic s) ∧ skipBR t (Rd.newBytes b cap) ≠ .oob := by
+  have h2 := skipBR_dry (Rd.newBytes b cap) t (newBytes_dry _ _)
+  cases hb : refBR Facts.defaultRecursionDepth t (Rd.newBytes b cap).remaining with
+  | none => rw [hb] at h2; obtain ⟨e, he⟩ := h2; simp [he]
+  | some n => rw [hb] at h2; obtain ⟨r', hx, _⟩ := h2; simp [hx]
+
+/-- … and whenever it reports success, the consumed length (ReadLen) is at most the input length -/
+theorem skipBR_bytes_le (b : Bytes) (cap : Nat) (t : UInt8) (r' : Rd) (hcap : b.length ≤ cap)
+    (hx : skipBR t (Rd.newBytes b cap) = .ok ((), r')) : r'.readLen ≤ b.length := by
+  have h2 := skipBR_dry (Rd.newBytes b cap) t (newBytes_dry _ _)
+  obtain ⟨hr, hri⟩ := newBytes_remaining b cap hcap
+  rw [hr] at h2
+  cases hb : refBR Facts.defaultRecursionDepth t b with
+  | none => rw [hb] at h2; obtain ⟨e, he⟩ := h2; rw [he] at hx; cases hx
+  | some n =>
+    rw [hb] at h2
+    obtain ⟨r1, hy, _, hlen, _⟩ := h2
+    rw [hy] at hx
+    have : r1 = r' := (Prod.mk.inj (Out.ok.inj hx)).2
+    subst this
+    have := (refBR_good _ t b n hb).2
+    simp only [Rd.readLen, hri] at hlen
+    simp only [Rd.readLen]; omega
+
+/-- BufferReader.Skip over the buffered reader in any good state (`RdOK`: C04's invariant, sizes
+    ≤ 2^60) over ANY source script — errors anywhere, empty reads, short reads: never a panic. -/
+theorem skipBR_stream_safe (r : Rd) (t : UInt8) (hok : RdOK r) :
+    (∀ s, skipBR t r ≠ .panic s) ∧ skipBR t r ≠ .oob := by
+  rcases skipBR_total_any r t hok with ⟨r', hx⟩ | ⟨e, he⟩
+  · simp [hx]
+  · simp [he]
+
+/-- SkipDecoder (over bufiox) over `NewBytesReader(b)` — every byte string, capacity, type byte:
+    a value or an error; never a panic. -/
+theorem bufioxDec_bytes_safe (b : Bytes) (cap : Nat) (t : UInt8) :
+    (∀ s, bufioxDecNext (Rd.newBytes b cap) t ≠ .panic s) ∧ bufioxDecNext (Rd.newBytes b cap) t ≠ .oob := by
+  have h2 := bufioxDecNext_dry (Rd.newBytes b cap) t (newBytes_dry _ _)
+  cases hb : refTpl Facts.defaultRecursionDepth t (Rd.newBytes b cap).remaining with
+  | none => rw [hb] at h2; obtain ⟨e, he⟩ := h2; simp [he]
+  | some n => rw [hb] at h2; obtain ⟨r', hx, _⟩ := h2; simp [hx]
+
+/-- … and the returned bytes are a prefix of the input (never more than was given) -/
+theorem bufioxDec_bytes_le (b : Bytes) (cap : Nat) (t : UInt8) (out : Bytes) (r' : Rd) (hcap : b.length ≤ cap)
+    (hx : bufioxDecNext (Rd.newBytes b cap) t = .ok (out, r')) :
+    out.length ≤ b.length ∧ out = b.take out.length := by
+  have h2 := bufioxDecNext_dry (Rd.newBytes b cap) t (newBytes_dry _ _)
+  obtain ⟨hr, _⟩ := newBytes_remaining b cap hcap
+  rw [hr] at h2
+  cases hb : refTpl Facts.defaultRecursionDepth t b with
+  | none => rw [hb] at h2; obtain ⟨e, he⟩ := h2; rw [he] at hx; cases hx
+  | some n =>
+    rw [hb] at h2
+    obtain ⟨r1, hy, _⟩ := h2
+    rw [hy] at hx
+    have h1 : b.take n = out := (Prod.mk.inj (Out.ok.inj hx)).1
+    have hn := (refTpl_good _ t b n hb).2
+    have hl : out.length = n := by rw [← h1, List.length_take]; omega
+    exact ⟨by omega, by rw [hl, h1]⟩
+
+/-- ReaderSkipDecoder over a plain io.Reader that delivers its stream (`Delivers`; e.g. a
+    bytes.Reader: every Read hands over what fits, io.EOF afterwards) — every byte string, every
+    type byte: a value or an error; never a panic. -/
+theorem readerDec_safe (src : Src) (t : UInt8) (hd : Delivers src.script src.stream.length = true) :
+    (∀ s, readerDecNext src t ≠ .panic s) ∧ readerDecNext src t ≠ .oob := by
+  have h2 := readerDecNext_exact src t hd
+  cases hb : refTpl Facts.defaultRecursionDepth t src.stream with
+  | none => rw [hb] at h2; obtain ⟨e, he⟩ := h2; simp [he]
+  | some n => rw [hb] at h2; obtain ⟨s', hx, _⟩ := h2; simp [hx]
+
+/-- non-vacuity: type byte 0xff, a truncated list, a negative size — all handled on the stream
+    skippers (evaluated on the model) -/
+example : skipBR 0xff (Rd.newBytes [1, 2, 3] 3) = .err errUnknownType := by decide
+example : ∃ e, skipBR TT.LIST (Rd.newBytes [0xff, 0, 0, 0, 1, 7] 6) = .err e := by
+  have h := skipBR_bytes_safe [0xff, 0, 0, 0, 1, 7] 6 TT.LIST
+  have h2 := skipBR_dry (Rd.newBytes [0xff, 0, 0, 0, 1, 7] 6) TT.LIST (newBytes_dry _ _)
+  have hr : (Rd.newBytes [0xff, 0, 0, 0, 1, 7] 6).remaining = [0xff, 0, 0, 0, 1, 7] := by decide
+  have : refBR Facts.defaultRecursionDepth TT.LIST [0xff, 0, 0, 0, 1, 7] = none := by decide
+  rw [hr, this] at h2
+  exact h2
+example : Delivers [⟨3, none⟩, ⟨0, none⟩, ⟨100, none⟩] 2 = true := by decide
 
 end Verif.C03
